@@ -138,6 +138,7 @@ pub fn alpha() -> Alpha {
         stray: vec![(AckKind::Puback, 9000), (AckKind::Pubcomp, 9001)],
         streams: true,
         stream_handover: true,
+        task_handover: true,
         terms: vec![TermAct::UserDisconnect, TermAct::ServerDisconnect { reason: 0x8b, form: 2, props: true }, TermAct::ServerDisconnect { reason: 0, form: 0, props: false }, TermAct::Eof, TermAct::ReadErr, TermAct::TransientReadErr(false), TermAct::TransientReadErr(true), TermAct::Garbage],
         drop_ctx: true,
         after_drop_kinds: vec![Kind::Pub1, Kind::Ping],
@@ -340,6 +341,10 @@ pub fn run(rep: &mut Rep) {
         directed.push(vec![Act::Start(Kind::Sub), ack(0, 1), Act::TakeStream(0), Act::HandoverStream(0), inp(0, 0), inp(1, 1)]);
         directed.push(vec![Act::Start(Kind::Sub), ack(0, 1), Act::TakeStream(0), inp(0, 0), Act::HandoverStream(0), inp(1, 1), Act::HandoverStream(0), Act::HandoverStream(0), inp(0, 0)]);
         directed.push(vec![Act::Start(Kind::Sub), ack(0, 1), inp(1, 1), Act::TakeStream(0), Act::HandoverStream(0), Act::HandoverStream(0), inp(1, 1), inp(0, 0)]);
+        // the run() future and operation futures change hands between events
+        directed.push(vec![Act::HandoverCtx, Act::Start(Kind::Pub1), Act::HandoverCtx, ack(0, 1), Act::HandoverCtx, Act::InPub { qos: 1, id: 3, dup: false, sub: SubSel::Absent }]);
+        directed.push(vec![Act::Start(Kind::Pub2), Act::HandoverOp(0), ack(0, 1), Act::HandoverOp(0), Act::HandoverOp(0), ack(0, 2)]);
+        directed.push(vec![Act::Start(Kind::Sub), Act::HandoverOp(0), Act::HandoverCtx, ack(0, 1), Act::Start(Kind::Ping), Act::HandoverOp(1), Act::PingResp]);
         directed.push(vec![Act::Start(Kind::Ping), Act::DropOp(0), Act::PingResp]);
         directed.push(vec![Act::Start(Kind::Ping), Act::Start(Kind::Ping), Act::DropOp(0), Act::PingResp, Act::PingResp]);
         rep.note(&format!("{} directed scripts (an operation of every kind given up while the context is idle, its acknowledgement(s) arriving afterwards, alone and next to a live operation), each replayed under all {} variants", directed.len(), variants.len()));
